@@ -182,11 +182,15 @@ class PendingIf(_PendingCompoundStmt[If]):
         orelse = self.nsp_global.expr_wraper(self.converted_orelse)
         if self.nsp_global.configs.if_style == "short_circuit":
             if len(self.converted_orelse) > 0:
-                # a non-empty tuple is true whatever the body evaluates to,
-                # and the value of the body is not asked for its truth value
-                body_or_true = Tuple(elts=[body], ctx=Load())
-                semi_if = BoolOp(op=And(), values=[test, body_or_true])
-                return [BoolOp(op=Or(), values=[semi_if, orelse])]
+                # `not test and (orelse,) or body`
+                # a non-empty tuple is true whatever the orelse evaluates to,
+                # the values of the branches are not asked for their truth value,
+                # and the truth value of the test is asked only once
+                # (`test and (body,) or orelse` would ask a false test twice)
+                orelse_or_true = Tuple(elts=[orelse], ctx=Load())
+                not_test = UnaryOp(op=Not(), operand=test)
+                semi_if = BoolOp(op=And(), values=[not_test, orelse_or_true])
+                return [BoolOp(op=Or(), values=[semi_if, body])]
             else:
                 return [BoolOp(op=And(), values=[test, body])]
         else:  # if_style=="if_expr"
